@@ -19,7 +19,7 @@ import (
 // zkCase is one accepted (honest) verification: the verify op with its argument strings, and which
 // arguments are the session, the statement and the proof.
 type zkCase struct {
-	aux     []int // statement arguments that are the verifier\'s own setup
+	aux     []int // statement arguments that are the verifier's own setup
 	sys     string
 	op      string
 	args    []string
@@ -341,6 +341,18 @@ func bobCase(r *Run, rng *rand.Rand, tag string, alice, bob *keygen.LocalPartySa
 var _ = paillier.ProofIters
 var _ = fmt.Sprint
 
+// --- Paillier key-correctness proof (crypto/paillier Proof): statement (N, the prover's party key k, the group key) ---
+func paiCase(r *Run, rng *rand.Rand, fx *keygen.LocalPartySaveData) *zkCase {
+	sk := fx.PaillierSK
+	k := fx.ShareID
+	pub := fx.ECDSAPub
+	pf := sk.Proof(k, pub)
+	zc := &zkCase{sys: "paillier-key", op: "pai_proof_verify", sess: -1, stmt: []int{1, 2, 3}, proof: []int{0}, witness: "phi(N)"}
+	zc.args = []string{eInts(pf[:]), eInt(sk.N), eInt(k), ePoint(pub)}
+	zc.origin = "go-prover"
+	return zc
+}
+
 // honestCases builds a stratified set of accepted proofs of every system
 func honestCases(r *Run, rng *rand.Rand, thorough bool) []*zkCase {
 	fx := loadFixtures()
@@ -372,6 +384,7 @@ func honestCases(r *Run, rng *rand.Rand, thorough bool) []*zkCase {
 	}
 	ss := sessions(rng)
 	for i := 0; i < nfx; i++ {
+		add(paiCase(r, rng, F(i)))
 		add(dlnCase(r, rng, F(i), false, false))
 		add(dlnCase(r, rng, F(i), true, i%2 == 0))
 		add(modCase(r, rng, F(i), ss[i%len(ss)], false))
